@@ -82,9 +82,29 @@ def said(q):
 # --------------------------------------------------------------------------------------------------
 # substances
 
+class Molecule:
+    """Stand-in for the optional `molecule=` attachment of a substance (the library documents a cctk.Molecule; any object)."""
+    def __init__(self, formula):
+        self.formula = formula
+        self.atoms = list(formula)
+
+
 def make_substances(rng, n=None, fixtures=True, same_names=0.0):
     pp = PP()
-    S = pp.Substance
+    _S = pp.Substance
+
+    class S:        # the factories, now and then with the optional molecule attached
+        @staticmethod
+        def solid(name, mw):
+            return _S.solid(name, mw, Molecule(name)) if rng.random() < 0.15 else _S.solid(name, mw)
+
+        @staticmethod
+        def liquid(name, mw, d):
+            return _S.liquid(name, mw, d, molecule=Molecule(name)) if rng.random() < 0.15 else _S.liquid(name, mw, d)
+
+        @staticmethod
+        def enzyme(name, act):
+            return _S.enzyme(name, act, Molecule(name)) if rng.random() < 0.15 else _S.enzyme(name, act)
     out = []
     if fixtures and rng.random() < 0.6:
         out += [S.liquid('H2O', 18.0153, 1), S.solid('NaCl', 58.4428)]
